@@ -50,6 +50,9 @@ type Session struct {
 	// tunnelHost is the authority of the CONNECT request that opened the
 	// tunnel this session's requests are read from, if any.
 	tunnelHost string
+	// plainTunnel is set while the requests of this session are read from a
+	// CONNECT tunnel whose traffic did not begin with a TLS handshake.
+	plainTunnel bool
 }
 
 var (
@@ -166,6 +169,22 @@ func (s *Session) setTunnelHost(host string) {
 	defer s.mu.Unlock()
 
 	s.tunnelHost = host
+}
+
+// setPlainTunnel records whether the tunnel this session's requests are read
+// from carries plain HTTP (its traffic did not begin with a TLS handshake).
+func (s *Session) setPlainTunnel(plain bool) {
+	s.mu.Lock()
+	defer s.mu.Unlock()
+
+	s.plainTunnel = plain
+}
+
+func (s *Session) inPlainTunnel() bool {
+	s.mu.RLock()
+	defer s.mu.RUnlock()
+
+	return s.plainTunnel
 }
 
 func (s *Session) getTunnelHost() string {
